@@ -57,6 +57,15 @@ func (lb *loadBalancer) Remove(u Upstream) bool {
 	return len(lb.upstreams) == 0
 }
 
+func (lb *loadBalancer) Contains(u Upstream) bool {
+	for _, upstream := range lb.upstreams {
+		if upstream == u {
+			return true
+		}
+	}
+	return false
+}
+
 func (lb *loadBalancer) Next() Upstream {
 	if len(lb.upstreams) == 0 {
 		return nil
@@ -137,6 +146,12 @@ func (m *LoadBalancedManager) RemoveConn(u Upstream) {
 
 	lb, ok := m.localUpstreams[u.EndpointID()]
 	if !ok {
+		return
+	}
+	// The upstream may have already been removed (such as the proxy removed it
+	// after the upstream sent 'go away', then the connection closed), in which
+	// case the cluster state must not be updated again.
+	if !lb.Contains(u) {
 		return
 	}
 	if lb.Remove(u) {
